@@ -46,7 +46,7 @@ WARM_ALPHABET = [("get", "a"), ("put", "a"), ("del", "a"), ("inv", "a"), ("put",
 
 def _seeds(pol, tier):
     if pol in SEEDED:
-        return [1, 2] if tier == "quick" else [1, 2, 3, 4]
+        return [1] if tier == "quick" else [1, 2, 3, 4]
     return [1]
 
 
@@ -71,6 +71,8 @@ def cs_overlap_cfgs(tier):
         for wt in (True, False):
             for cap in (1, 2):
                 for lat in ("R4W2D3", "R2W4D1"):
+                    if tier == "quick" and lat == "R2W4D1" and pol != "LRU":
+                        continue  # quick: the second latency set with one policy only
                     out.append({"driver": "cs-overlap", "sys": "cs", "pol": pol, "wt": wt, "cap": cap, "lat": lat,
                                 "rseed": 1, "n_conc": 2, "span_half": 12, "step_half": 2 if tier == "quick" else 1,
                                 "alphabet": CS_ALPHABET, "prefixes": CS_PREFIXES})
@@ -114,6 +116,11 @@ def mtc_overlap_cfgs(tier):
                                 "wt": True, "lat": lat, "rseed": 1, "n_conc": 2, "span_half": 12,
                                 "step_half": 2 if tier == "quick" else 1,
                                 "alphabet": MTC_ALPHABET, "prefixes": MTC_PREFIXES})
+                    if tier != "quick" and pol == "LRU":
+                        # write-back L1 (flush = the tier's own flush), integer offsets
+                        out.append({"driver": "mtc-overlap", "sys": "mtc", "pol": pol, "promo": promo, "cap": cap,
+                                    "wt": False, "lat": lat, "rseed": 1, "n_conc": 2, "span_half": 12, "step_half": 2,
+                                    "alphabet": MTC_ALPHABET + [("flush",)], "prefixes": MTC_PREFIXES})
     return out
 
 
@@ -179,6 +186,15 @@ def _absorb(run, d, results, states_key="states"):
         d.states = d.outcomes
 
 
+def _dispatch(item):
+    name, fn, job = item
+    t0 = time.time()
+    st = {"seq": seq_job, "overlap": overlap_job, "sttl": sttl_job, "wpol": wpol_job, "warm": warm_job,
+          "pc": pc_job}[fn](job)
+    st["t_start"], st["t_end"] = t0, time.time()
+    return name, st
+
+
 def _confirm(run):
     """Re-run every violating case from its replay data (no explorer) before reporting it."""
     for fp in list(run.violations):
@@ -227,85 +243,87 @@ def main(tier, seed, only=None):
     def want(name):
         return not only or name in only
 
+    plan = []  # (driver name, bounds, job function name, jobs)
     if want("cs-seq"):
-        t0 = time.time()
         cfgs = cs_seq_cfgs(tier)
-        d = run.driver("cs-seq", {"component": "CachedStore", "policies": POLICIES, "write_modes": ["write-through", "write-back"],
-                                  "capacity": [1, 2], "keys": ["a", "b", "c"], "depth": cfgs[0]["depth"],
-                                  "ops": "get/put/delete/invalidate x key, flush" + (", invalidate_all" if tier != "quick" else ""),
-                                  "configs": len(cfgs)})
-        _absorb(run, d, pmap(seq_job, rotate(cfgs, seed)))
-        d.wall_s = time.time() - t0
+        plan.append(("cs-seq", {"component": "CachedStore", "policies": POLICIES,
+                                "write_modes": ["write-through", "write-back"], "capacity": [1, 2],
+                                "keys": ["a", "b", "c"], "depth": cfgs[0]["depth"],
+                                "ops": "get/put/delete/invalidate x key, flush"
+                                       + (", invalidate_all" if tier != "quick" else ""),
+                                "seeds(Random,SampledLRU)": _seeds("Random", tier), "configs": len(cfgs)},
+                     "seq", cfgs))
     if want("cs-overlap"):
-        t0 = time.time()
         cfgs = cs_overlap_cfgs(tier)
-        d = run.driver("cs-overlap", {"component": "CachedStore", "policies": POLICIES, "write_modes": 2, "capacity": [1, 2],
-                                      "latency_sets(read,write,delete ticks)": ["4/2/3", "2/4/1"], "concurrent_ops": 2,
-                                      "alphabet": CS_ALPHABET, "pre_states": CS_PREFIXES,
-                                      "offset_grid_ticks": f"-6..6 step {cfgs[0]['step_half'] / 2}", "configs": len(cfgs)})
-        _absorb(run, d, pmap(overlap_job, rotate(cfgs, seed)))
-        d.wall_s = time.time() - t0
+        plan.append(("cs-overlap", {"component": "CachedStore", "policies": POLICIES, "write_modes": 2,
+                                    "capacity": [1, 2],
+                                    "latency_sets(read,write,delete ticks)": sorted({c["lat"] for c in cfgs}),
+                                    "concurrent_ops": 2, "alphabet": CS_ALPHABET, "pre_states": CS_PREFIXES,
+                                    "offset_grid_ticks": f"-6..6 step {cfgs[0]['step_half'] / 2}",
+                                    "configs": len(cfgs)}, "overlap", cfgs))
     if want("mtc-seq"):
-        t0 = time.time()
         cfgs = mtc_seq_cfgs(tier)
-        d = run.driver("mtc-seq", {"component": "MultiTierCache (2 CachedStore tiers)", "depth": cfgs[0]["depth"],
-                                   "l1_policies": sorted({c["pol"] for c in cfgs}), "promotion": ["always", "on_second_access", "never"],
-                                   "l1_capacity": [1, 2], "ops": "get/put/delete/invalidate/read-through-L2 x key",
-                                   "configs": len(cfgs)})
-        _absorb(run, d, pmap(seq_job, rotate(cfgs, seed)))
-        d.wall_s = time.time() - t0
+        plan.append(("mtc-seq", {"component": "MultiTierCache (2 CachedStore tiers)", "depth": cfgs[0]["depth"],
+                                 "l1_policies": sorted({c["pol"] for c in cfgs}),
+                                 "promotion": ["always", "on_second_access", "never"], "l1_capacity": [1, 2],
+                                 "l1_write_modes": sorted({"write-through" if c["wt"] else "write-back" for c in cfgs}),
+                                 "ops": "get/put/delete/invalidate/read-through-L2 x key (+ L1 flush when write-back)",
+                                 "configs": len(cfgs)}, "seq", cfgs))
     if want("mtc-overlap"):
-        t0 = time.time()
         cfgs = mtc_overlap_cfgs(tier)
-        d = run.driver("mtc-overlap", {"component": "MultiTierCache", "concurrent_ops": 2, "alphabet": MTC_ALPHABET,
-                                       "pre_states": MTC_PREFIXES, "offset_grid_ticks": f"-6..6 step {cfgs[0]['step_half'] / 2}",
-                                       "configs": len(cfgs)})
-        _absorb(run, d, pmap(overlap_job, rotate(cfgs, seed)))
-        d.wall_s = time.time() - t0
+        plan.append(("mtc-overlap", {"component": "MultiTierCache", "concurrent_ops": 2, "alphabet": MTC_ALPHABET,
+                                     "pre_states": MTC_PREFIXES,
+                                     "offset_grid_ticks": f"-6..6 step {cfgs[0]['step_half'] / 2}",
+                                     "l1_policies": sorted({c["pol"] for c in cfgs}), "configs": len(cfgs)},
+                     "overlap", cfgs))
     if want("sttl"):
-        t0 = time.time()
         cfgs = sttl_cfgs(tier)
-        jobs = [(c, fk) for c in cfgs for fk in STTL_ALPHABET]
-        d = run.driver("sttl", {"component": "SoftTTLCache", "soft/hard ttl ticks": sorted({(c["soft"], c["hard"]) for c in cfgs}),
-                                "backing_read_latency": [1, 3], "capacity": [None, 1], "backing delete at tick": [None, 2.5, 5.5],
-                                "accesses": sorted({c["n"] for c in cfgs}), "grid_ticks": "0..9", "alphabet": STTL_ALPHABET,
-                                "configs": len(cfgs)})
-        res = pmap(sttl_job, rotate(jobs, seed))
-        _absorb(run, d, res)
-        paths = {}
-        for st in res:
-            for p, c in st["paths"].items():
-                paths[p] = paths.get(p, 0) + c
-        d.extra["read_paths"] = paths
-        d.wall_s = time.time() - t0
+        plan.append(("sttl", {"component": "SoftTTLCache",
+                              "soft/hard ttl ticks": sorted({(c["soft"], c["hard"]) for c in cfgs}),
+                              "backing_read_latency": [1, 3], "capacity": [None, 1],
+                              "backing delete at tick": [None, 2.5, 5.5],
+                              "accesses": sorted({c["n"] for c in cfgs}), "grid_ticks": "0..9",
+                              "alphabet": STTL_ALPHABET, "configs": len(cfgs)},
+                     "sttl", [(c, fk) for c in cfgs for fk in STTL_ALPHABET]))
     if want("wpol"):
-        t0 = time.time()
-        d = run.driver("wpol", {"component": "WriteBack/WriteAround/WriteThrough bookkeeping", "depth": 4 if tier == "quick" else 6})
-        _absorb(run, d, [wpol_job(4 if tier == "quick" else 6)])
-        d.wall_s = time.time() - t0
+        depth = 4 if tier == "quick" else 6
+        plan.append(("wpol", {"component": "WriteBack/WriteAround/WriteThrough bookkeeping", "depth": depth},
+                     "wpol", [depth]))
     if tier != "quick":
         if want("cs-overlap3"):
-            t0 = time.time()
             cfgs = cs_overlap3_cfgs()
-            d = run.driver("cs-overlap3", {"component": "CachedStore", "concurrent_ops": 3, "policies": ["LRU", "LFU", "Clock"],
-                                           "alphabet": cfgs[0]["alphabet"], "pre_states": cfgs[0]["prefixes"],
-                                           "offset_grid_ticks": "-4..4 step 1", "configs": len(cfgs)})
-            _absorb(run, d, pmap(overlap_job, rotate(cfgs, seed)))
-            d.wall_s = time.time() - t0
+            plan.append(("cs-overlap3", {"component": "CachedStore", "concurrent_ops": 3,
+                                         "policies": ["LRU", "LFU", "Clock"], "alphabet": cfgs[0]["alphabet"],
+                                         "pre_states": cfgs[0]["prefixes"], "offset_grid_ticks": "-4..4 step 1",
+                                         "latency_sets": ["R4W2D3", "R2W4D1"], "configs": len(cfgs)},
+                         "overlap", cfgs))
         if want("warm"):
-            t0 = time.time()
             cfgs = warm_cfgs()
-            d = run.driver("warm", {"component": "CacheWarmer over CachedStore", "alphabet": WARM_ALPHABET,
-                                    "offset_grid_ticks": "0..16 step 0.5", "configs": len(cfgs)})
-            _absorb(run, d, pmap(warm_job, rotate(cfgs, seed)))
-            d.wall_s = time.time() - t0
+            plan.append(("warm", {"component": "CacheWarmer over CachedStore", "alphabet": WARM_ALPHABET,
+                                  "offset_grid_ticks": "0..16 step 0.5", "configs": len(cfgs)}, "warm", cfgs))
         if want("pagecache-seq"):
-            t0 = time.time()
             cfgs = pc_cfgs()
-            d = run.driver("pagecache-seq", {"component": "PageCache", "capacity": [1, 2], "readahead": [0, 1], "pages": 3,
-                                             "depth": 7, "ops": "read_page/write_page x page, flush"})
-            _absorb(run, d, pmap(pc_job, rotate(cfgs, seed)))
-            d.wall_s = time.time() - t0
+            plan.append(("pagecache-seq", {"component": "PageCache", "capacity": [1, 2], "readahead": [0, 1],
+                                           "pages": 3, "depth": 7, "ops": "read_page/write_page x page, flush"},
+                         "pc", cfgs))
+    # one pool pass over every independent sub-space of every driver (no barrier between drivers)
+    items = []
+    for name, _b, fn, jobs in plan:
+        items += [(name, fn, j) for j in rotate(jobs, seed)]
+    items.sort(key=lambda it: {"seq": 0, "overlap": 1, "sttl": 2}.get(it[1], 3))  # big jobs first (stable)
+    results = pmap(_dispatch, items)
+    for name, bounds, _fn, _jobs in plan:
+        d = run.driver(name, bounds)
+        mine = [r for n, r in results if n == name]
+        _absorb(run, d, mine)
+        d.wall_s = max(r["t_end"] for r in mine) - min(r["t_start"] for r in mine)
+        d.extra["worker_seconds"] = round(sum(r["t_end"] - r["t_start"] for r in mine), 1)
+        if name == "sttl":
+            paths = {}
+            for st in mine:
+                for p_, c in st["paths"].items():
+                    paths[p_] = paths.get(p_, 0) + c
+            d.extra["read_paths"] = paths
     _confirm(run)
     return run.finish()
 
